@@ -51,6 +51,15 @@ static ssize_t rd(void *ck, char *buf, size_t size) {
     g_rstats.bytes += n;
     return (ssize_t)n;
 }
+// a regular file is seekable: code that measures it with fseek/ftell instead of fstat gets the file's real size and position
+static int rd_seek(void *ck, off64_t *off, int whence) {
+    ReadCookie *c = (ReadCookie *)ck;
+    int64_t base = whence == SEEK_SET ? 0 : whence == SEEK_CUR ? (int64_t)c->pos : whence == SEEK_END ? (int64_t)g_script.content.size() : -1;
+    if (base < 0 || base + *off < 0) { errno = EINVAL; return -1; }
+    c->pos = (size_t)(base + *off);
+    *off = (off64_t)c->pos;
+    return 0;
+}
 static int rd_close(void *ck) {
     g_rstats.closes++;
     delete (ReadCookie *)ck;
@@ -148,7 +157,7 @@ FILE *__wrap_fopen(const char *path, const char *mode) {
             return nullptr;
         }
         ReadCookie *c = new ReadCookie();
-        cookie_io_functions_t io = {rd, nullptr, nullptr, rd_close};
+        cookie_io_functions_t io = {rd, nullptr, rd_seek, rd_close};
         FILE *f = fopencookie(c, "r", io);
         if (f && g_script.unbuffered) setvbuf(f, nullptr, _IONBF, 0);
         g_read_fp = f;
